@@ -28,6 +28,7 @@ CONSTANTS
   WPropose = 20
   WCommit = 60
   WApp = 0
+  LateBias = 3
   WStore = 0
 INVARIANT EmitAtDepth
 CHECK_DEADLOCK FALSE
